@@ -273,89 +273,73 @@ example : -- non-vacuous: two tenants, a restart in the middle, a clock race at 
   decide
 end Usq
 
-/-! ## index aliases (pkg/virtualtable) — the per-index alias files refine the specification at full
-strength; the in-memory inverse map `aliasToIndexNames` (list, resolve) does not -/
+/-! ## index aliases (pkg/virtualtable) — with patches c20-1 (the alias files of org 0 are read at restart)
+and c20-2 (an emptied inner map is dropped) all three statements hold at full strength; the behaviour
+before the patches (`stepOld`) is refuted by the counterexample theorems -/
 section Alias
 open SigModel.KV.Alias
 
-/-- C20.K1 (aliases), the part that holds for EVERY operation sequence: `abs` (= the alias files)
-commutes with every step, and the answers of add / remove / get / restart are the documented ones. -/
+/-- C20.K1 (aliases): for EVERY sequence of add / remove / get / list / resolve / restart on any tenants,
+every answer — including list and resolve, which are read from the in-memory inverse map
+`aliasToIndexNames` — is the documented one for the abstract keyed store (org, index) ↦ alias set, and
+`abs` commutes with every step. -/
+theorem kv_refines_spec_alias (ops : List Op) : Refines Spec.empty init ops := by
+  have h := Lemmas.C20K.Alias.refines_of_memOk ops init Lemmas.C20K.Alias.memOk_init
+  rwa [Lemmas.C20K.Alias.abs_init] at h
+
+/-- the file side alone (`abs` = the alias files; answers of add / remove / get / restart) needs no
+invariant at all -/
 theorem kv_refines_spec_alias_files (ops : List Op) : RefinesFiles Spec.empty init ops := by
   have h := Lemmas.C20K.Alias.refinesFiles_all ops init
   rwa [Lemmas.C20K.Alias.abs_init] at h
 
-/-- C20.K1 (aliases) at full strength is REFUTED: after the only index of an alias is removed,
-`GetAllAliasesAsMapArray` still lists the alias (with no index) — `RemoveAliases` deletes the index
-from the alias' inner map but keeps the inner map (virtualtable.go:655). -/
-theorem kv_refines_spec_alias_counterexample_removal :
-    ¬ (∀ ops, Refines Spec.empty init ops) := by
+/-- OLD behaviour (before patch c20-2) REFUTED: after the only index of an alias was removed,
+`GetAllAliasesAsMapArray` still listed the alias (with no index) — `RemoveAliases` deleted the index from
+the alias' inner map but kept the inner map. -/
+theorem kv_refines_spec_alias_old_counterexample_removal :
+    ¬ (∀ ops, RefinesOld Spec.empty init ops) := by
   intro h
   have h1 := h [.add 1 [105] [97], .remove 1 [105] [97], .list 1]
-  simp only [Refines] at h1
+  simp only [RefinesOld] at h1
   obtain ⟨_, _, _, _, h2, _⟩ := h1
-  have h3 : (step (step (step init (.add 1 [105] [97])).1 (.remove 1 [105] [97])).1 (.list 1)).2 = .amap [([97], [])] := by decide
+  have h3 : (stepOld (stepOld (stepOld init (.add 1 [105] [97])).1 (.remove 1 [105] [97])).1 (.list 1)).2 = .amap [([97], [])] := by decide
   rw [h3] at h2
   exact (h2.2.1 [97] [] (by simp)).1 rfl
 
-/-- … and REFUTED a second way: after a restart the aliases of org 0 no longer resolve —
-`initializeAliasToIndexMap` walks only the DIRECTORIES of the alias directory, and the alias files of
-org 0 lie at its top level (virtualtable.go:538-539). -/
-theorem kv_refines_spec_alias_counterexample_restart :
-    ¬ (∀ ops, Refines Spec.empty init ops) := by
+/-- OLD behaviour (before patch c20-1) REFUTED: after a restart the aliases of org 0 no longer resolved —
+`initializeAliasToIndexMap` walked only the DIRECTORIES of the alias directory, and the alias files of
+org 0 lie at its top level. -/
+theorem kv_refines_spec_alias_old_counterexample_restart :
+    ¬ (∀ ops, RefinesOld Spec.empty init ops) := by
   intro h
   have h1 := h [.add 0 [105] [97], .restart, .resolve 0 [97]]
-  simp only [Refines] at h1
+  simp only [RefinesOld] at h1
   obtain ⟨_, _, _, _, h2, _⟩ := h1
-  have h3 : (step (step (step init (.add 0 [105] [97])).1 .restart).1 (.resolve 0 [97])).2 = .target [] := by decide
+  have h3 : (stepOld (stepOld (stepOld init (.add 0 [105] [97])).1 .restart).1 (.resolve 0 [97])).2 = .target [] := by decide
   rw [h3] at h2
   have h4 := (h2 [105]).2 ⟨by simp, by
     simp only [specStep, Spec.has]
     decide⟩
   cases h4
 
-/-- the guard: no removal takes the last index off an alias held by the memory map, and no restart
-happens while org 0 holds alias files (decidable: computed along the model run) -/
-abbrev AliasClean (ops : List Op) : Prop := Clean init ops = true
+/-- C20.K2 (aliases): a restart at ANY position is the identity on the alias files (`abs`) and on the
+memory view (what list / resolve answer from). -/
+theorem reload_persist_id_alias (ops : List Op) :
+    abs (step (run init ops).1 .restart).1 = abs (run init ops).1 ∧
+    ∀ t a i, memView (step (run init ops).1 .restart).1 t a i ↔ memView (run init ops).1 t a i := by
+  refine ⟨rfl, ?_⟩
+  intro t a i
+  have hm := Lemmas.C20K.Alias.memOk_run ops init Lemmas.C20K.Alias.memOk_init
+  have hm2 := Lemmas.C20K.Alias.step_memOk hm .restart
+  exact (hm2.inverse t a i).trans (hm.inverse t a i).symm
 
-/-- C20.K1 (aliases), partial: under the guard every answer — including list and resolve, which are
-read from the in-memory map — is the documented one, and `abs` commutes with every step. -/
-theorem kv_refines_spec_alias_partial (ops : List Op) (hc : AliasClean ops) : Refines Spec.empty init ops := by
-  have h := Lemmas.C20K.Alias.refines_of_memOk ops init Lemmas.C20K.Alias.memOk_init hc
-  rwa [Lemmas.C20K.Alias.abs_init] at h
-
-example : -- the guard is satisfiable by a sequence with removals and a restart (orgs 1 and 2, two indexes per alias)
-    AliasClean [.add 1 [105] [97], .add 1 [106] [97], .remove 1 [105] [97], .list 1, .restart, .resolve 1 [97],
-      .add 2 [105] [98], .get 2 [105], .remove 1 [107] [99]] := by decide
-
-/-- C20.K2 (aliases): a restart never changes the alias files (`abs`), in ANY state … -/
-theorem reload_persist_id_alias (st : St) : abs (step st .restart).1 = abs st := rfl
-
-/-- … but "restart is the identity on what reads return" is REFUTED for the memory view: the aliases
-of org 0 are gone from `aliasToIndexNames` after a restart. -/
-theorem reload_persist_id_alias_counterexample :
-    ¬ (∀ ops t a i, memView (step (run init ops).1 .restart).1 t a i ↔ memView (run init ops).1 t a i) := by
+/-- OLD behaviour (before patch c20-1) REFUTED: the aliases of org 0 were gone from the memory view after
+a restart. -/
+theorem reload_persist_id_alias_old_counterexample :
+    ¬ (∀ ops t a i, memView (stepOld (runOld init ops).1 .restart).1 t a i ↔ memView (runOld init ops).1 t a i) := by
   intro h
   have h1 := (h [.add 0 [105] [97]] 0 [97] [105]).2 (by unfold memView; decide)
   revert h1; unfold memView; decide
-
-/-- C20.K2 (aliases), partial: after a guarded sequence, a guarded restart (org 0 holds no alias file)
-is the identity on the memory view as well. -/
-theorem reload_persist_id_alias_partial (ops : List Op) (hc : AliasClean (ops ++ [.restart])) (t : Nat) (a i : Key) :
-    memView (step (run init ops).1 .restart).1 t a i ↔ memView (run init ops).1 t a i := by
-  have hsplit : ∀ (ops : List Op) (st : St), Clean st (ops ++ [.restart]) = true →
-      Clean st ops = true ∧ stepClean (run st ops).1 .restart = true := by
-    intro ops
-    induction ops with
-    | nil => intro st h; simpa [Clean, run] using h
-    | cons op r ih =>
-      intro st h
-      simp only [List.cons_append, Clean, Bool.and_eq_true] at h
-      obtain ⟨h1, h2⟩ := ih _ h.2
-      exact ⟨by simp [Clean, h.1, h1], by simpa [run] using h2⟩
-  obtain ⟨h1, h2⟩ := hsplit ops init hc
-  have hm := Lemmas.C20K.Alias.memOk_run ops init Lemmas.C20K.Alias.memOk_init h1
-  have hm2 := Lemmas.C20K.Alias.step_memOk hm .restart h2
-  exact (hm2.inverse t a i).trans (hm.inverse t a i).symm
 
 /-- C20.K3 (aliases): an operation of tenant `t` changes neither the alias files nor the memory view of
 any other tenant — in ANY state (the maps are keyed by org; nothing is shared). -/
@@ -364,11 +348,11 @@ theorem tenant_frame_alias (st : St) (op : Op) (t : Nat) (ht : op.tenant = some 
     (∀ a i, memView (step st op).1 t' a i ↔ memView st t' a i) :=
   Lemmas.C20K.Alias.frame st op t ht t' hne
 
-example : -- non-vacuous run of the alias model: the two defects are visible in the answers
+example : -- non-vacuous run of the alias model: removal of the last index, restart with org 0 and org 1
     (run init [.add 0 [105] [97], .add 0 [106] [97], .resolve 0 [97], .remove 0 [105] [97], .remove 0 [106] [97],
-      .list 0, .add 0 [105] [98], .restart, .resolve 0 [98], .get 0 [105]]).2 =
-    [.res .ok, .res .ok, .target [[105], [106]], .res .ok, .res .ok, .amap [([97], [])], .res .ok, .restarted,
-      .target [], .names [[98]]] := by decide
+      .list 0, .add 0 [105] [98], .add 1 [105] [98], .restart, .resolve 0 [98], .resolve 1 [98], .get 0 [105]]).2 =
+    [.res .ok, .res .ok, .target [[105], [106]], .res .ok, .res .ok, .amap [], .res .ok, .res .ok, .restarted,
+      .target [[105]], .target [[105]], .names [[98]]] := by decide
 end Alias
 
 /-! ## lookup files (pkg/lookups) — one name space (the code has NO tenant dimension, so there is no
@@ -397,54 +381,81 @@ example : -- non-vacuous: suffix rule, conflict without overwrite, case variants
       .names [[65, 46, 67, 83, 86]], .res .invalid] := by decide
 end Lookup
 
-/-! ## contact points (pkg/alerts/alertsqlite) — the sqlite table refines the keyed store only under a
-guard; four counterexamples -/
+/-! ## contact points (pkg/alerts/alertsqlite) — with patches c20-6 / c20-7 / c20-8 the sqlite table
+refines the keyed store (with names unique over all orgs) for every sequence in which update / delete
+address the caller's own contacts; the missing org check of update / delete stays (known finding) -/
 section Contact
 open SigModel.KV.Contact
 
-/-- the guard: names of create / update are unused by every other contact of ANY org; an update with an
-empty Slack list meets an empty stored list; update / delete address the caller's own contact or none -/
-abbrev ContactClean (ops : List Op) : Prop := Clean init ops = true
+/-- the guard that is left: update / delete address a contact of the caller's org, or no contact at all -/
+abbrev ContactOwnIds (ops : List Op) : Prop := OwnIds init ops = true
 
-/-- C20.K1 (contact points), partial: under the guard every answer is the documented one (create
-stores under a fresh id, update / delete = not-found exactly when the caller's org has no such contact,
-list = exactly the org's contacts with their last written name, pager and Slack list) and `abs` commutes
-with every step. -/
-theorem kv_refines_spec_contact_partial (ops : List Op) (hc : ContactClean ops) : Refines Spec.empty init ops := by
+/-- C20.K1 (contact points), partial: under the guard every answer is the documented one (create = stored
+under a fresh id, or already-exists when ANY org holds the name; update = not-found / already-exists / ok
+with the request's name, pager and Slack list replacing the stored ones, a refused update changing nothing;
+delete = not-found exactly when absent; list = exactly the org's contacts as last written) and `abs`
+commutes with every step. -/
+theorem kv_refines_spec_contact_partial (ops : List Op) (hc : ContactOwnIds ops) : Refines Spec.empty init ops := by
   have h := Lemmas.C20K.Contact.refines_of_inv ops init Lemmas.C20K.Contact.inv_init hc
   rwa [Lemmas.C20K.Contact.abs_init] at h
 
-example : -- the guard is satisfiable: two orgs, updates with and without Slack channels, delete, restart
-    ContactClean [.create 0 [97] "p" ["c1"], .create 1 [98] "" [], .update 1 2 [99] "q" [], .update 0 1 [97] "r" ["c2", "c3"],
-      .list 0, .restart, .delete 1 2, .delete 1 2, .update 0 7 [100] "" [], .list 1] := by decide
+example : -- the guard is satisfiable: two orgs, duplicate names, empty and non-empty Slack lists, delete, restart
+    ContactOwnIds [.create 0 [97] "p" ["c1"], .create 1 [97] "" [], .create 1 [98] "" ["c9"], .update 1 2 [99] "q" [],
+      .update 0 1 [99] "r" ["c2", "c3"], .list 0, .restart, .delete 1 2, .delete 1 2, .update 0 7 [100] "" [], .list 1] := by decide
 
-/-- C20.K1 (contact points) at full strength is REFUTED (1): a create whose name exists — in whatever
-org — is acknowledged and stores nothing (`CreateContact` returns nil when `First` finds the name). -/
-theorem kv_refines_spec_contact_counterexample_create : ¬ (∀ ops, Refines Spec.empty init ops) := by
+/-- C20.K1 (contact points) at full strength is REFUTED: org 1 updating the id of org 0's contact is
+answered ok where the keyed store of org 1 holds no such key (no org check in UpdateContactPoint). -/
+theorem kv_refines_spec_contact_counterexample_foreign_update : ¬ (∀ ops, Refines Spec.empty init ops) := by
+  intro h
+  have h1 := h [.create 0 [97] "p" [], .update 1 1 [98] "q" []]
+  simp only [Refines, RefinesWith] at h1
+  obtain ⟨_, h0, h2, _⟩ := h1
+  have h3 : (step (step init (.create 0 [97] "p" [])).1 (.update 1 1 [98] "q" [])).2 = .res .ok := by decide
+  have h4 : (step init (.create 0 [97] "p" [])).2 = .created 1 := by decide
+  rw [h3, h4] at h2
+  have hs : specNext Spec.empty (.create 0 [97] "p" []) (.created 1) 1 1 = none := by
+    simp [specNext, Spec.set, Spec.empty]
+  rcases h2 with ⟨_, e⟩ | ⟨hne, _⟩ | ⟨_, _, e⟩
+  · cases e
+  · exact hne hs
+  · cases e
+
+/-- OLD behaviour (before patch c20-8) REFUTED: a create whose name exists — in whatever org — was
+acknowledged and stored nothing (`CreateContact` returned nil when `First` found the name). -/
+theorem kv_refines_spec_contact_old_counterexample_create : ¬ (∀ ops, RefinesOld Spec.empty init ops) := by
   intro h
   have h1 := h [.create 0 [97] "p" [], .create 1 [97] "q" []]
-  simp only [Refines] at h1
+  simp only [RefinesOld, RefinesWith] at h1
   obtain ⟨_, _, h2, _⟩ := h1
-  revert h2; simp only [OutOk]; decide
+  have h3 : (stepOld (stepOld init (.create 0 [97] "p" [])).1 (.create 1 [97] "q" [])).2 = .notCreated := by decide
+  rw [h3] at h2
+  rcases h2 with ⟨_, e⟩ | ⟨_, e⟩ <;> cases e
 
-/-- REFUTED (2): an update with an EMPTY Slack list leaves the old channels attached (the association is
-cleared only `if len(contact.Slack) != 0`). -/
-theorem kv_refines_spec_contact_counterexample_update_keeps : ¬ (∀ ops, Refines Spec.empty init ops) := by
+/-- OLD behaviour (before patch c20-6) REFUTED: an update with an EMPTY Slack list left the old channels
+attached (the association was cleared only `if len(contact.Slack) != 0`). -/
+theorem kv_refines_spec_contact_old_counterexample_update_keeps : ¬ (∀ ops, RefinesOld Spec.empty init ops) := by
   intro h
   have h1 := h [.create 0 [97] "p" ["c1"], .update 0 1 [97] "p" []]
-  simp only [Refines] at h1
+  simp only [RefinesOld, RefinesWith] at h1
   obtain ⟨_, _, _, h2, _⟩ := h1
   have h3 := congrFun (congrFun h2 0) 1
-  revert h3; simp only [specStep, Spec.update, Spec.set]; decide
+  have h4 : (stepOld (stepOld init (.create 0 [97] "p" ["c1"])).1 (.update 0 1 [97] "p" [])).2 = .res .ok := by decide
+  rw [h4] at h3
+  have h5 : abs (stepOld (stepOld init (.create 0 [97] "p" ["c1"])).1 (.update 0 1 [97] "p" [])).1 0 1 = some ([97], "p", ["c1"]) := by decide
+  rw [h5] at h3
+  simp [specNext, Spec.set] at h3
 
-/-- REFUTED (3): a refused update (the new name belongs to another contact) still clears the Slack
-channels (the clear runs before, and outside the transaction of, the failing Save). -/
-theorem kv_refines_spec_contact_counterexample_failed_update : ¬ (∀ ops, Refines Spec.empty init ops) := by
+/-- OLD behaviour (before patch c20-7) REFUTED: a refused update (the new name belongs to another contact)
+still cleared the Slack channels (the clear ran before, and outside the transaction of, the failing Save). -/
+theorem kv_refines_spec_contact_old_counterexample_failed_update : ¬ (∀ ops, RefinesOld Spec.empty init ops) := by
   intro h
   have h1 := h [.create 0 [97] "p" ["c1"], .create 0 [98] "q" ["c2"], .update 0 2 [97] "r" ["c3"]]
-  simp only [Refines] at h1
+  simp only [RefinesOld, RefinesWith] at h1
   obtain ⟨_, _, _, _, h2, _⟩ := h1
-  revert h2; simp only [OutOk]; decide
+  have h3 : (stepOld (stepOld (stepOld init (.create 0 [97] "p" ["c1"])).1 (.create 0 [98] "q" ["c2"])).1
+      (.update 0 2 [97] "r" ["c3"])).2 = .saveFailed := by decide
+  rw [h3] at h2
+  rcases h2 with ⟨_, e⟩ | ⟨_, _, e⟩ | ⟨_, _, e⟩ <;> cases e
 
 /-- C20.K3 (contact points) is REFUTED: an update by org 1 of org 0's contact is accepted and MOVES the
 contact out of what org 0 reads (no org check; the saved row carries the caller's org id). -/
@@ -457,17 +468,17 @@ theorem tenant_frame_contact_counterexample :
 
 /-- C20.K3 (contact points), partial: under the guard an operation of org `t` leaves what every other
 org reads unchanged. -/
-theorem tenant_frame_contact_partial (ops : List Op) (op : Op) (hc : ContactClean (ops ++ [op]))
+theorem tenant_frame_contact_partial (ops : List Op) (op : Op) (hc : ContactOwnIds (ops ++ [op]))
     (t : Nat) (ht : op.tenant = some t) (t' : Nat) (hne : t' ≠ t) (id : Nat) :
     abs (step (run init ops).1 op).1 t' id = abs (run init ops).1 t' id := by
-  have hsplit : ∀ (ops : List Op) (st : St), Lemmas.C20K.Contact.Inv st → Clean st (ops ++ [op]) = true →
-      Lemmas.C20K.Contact.Inv (run st ops).1 ∧ stepClean (run st ops).1 op = true := by
+  have hsplit : ∀ (ops : List Op) (st : St), Lemmas.C20K.Contact.Inv st → OwnIds st (ops ++ [op]) = true →
+      Lemmas.C20K.Contact.Inv (run st ops).1 ∧ stepOwn (run st ops).1 op = true := by
     intro ops
     induction ops with
-    | nil => intro st hi h; exact ⟨hi, by simpa [Clean, run] using h⟩
+    | nil => intro st hi h; exact ⟨hi, by simpa [OwnIds, run] using h⟩
     | cons o r ih =>
       intro st hi h
-      simp only [List.cons_append, Clean, Bool.and_eq_true] at h
+      simp only [List.cons_append, OwnIds, Bool.and_eq_true] at h
       have := ih _ (Lemmas.C20K.Contact.step_ok hi o h.1).1 h.2
       simpa [run] using this
   obtain ⟨hi, hcl⟩ := hsplit ops init Lemmas.C20K.Contact.inv_init hc
@@ -476,23 +487,31 @@ theorem tenant_frame_contact_partial (ops : List Op) (op : Op) (hc : ContactClea
   cases op with
   | create t0 name pager slack =>
     simp only [Op.tenant, Option.some.injEq] at ht; subst ht
-    simp [specStep, Spec.set, hne]
+    generalize (step (run init ops).1 (.create t0 name pager slack)).2 = o
+    cases o <;> simp [specNext, Spec.set, hne]
   | update t0 id0 name pager slack =>
     simp only [Op.tenant, Option.some.injEq] at ht; subst ht
-    simp only [specStep, Spec.update]; split <;> simp [Spec.set, hne]
+    generalize (step (run init ops).1 (.update t0 id0 name pager slack)).2 = o
+    cases o with
+    | res r => cases r <;> simp [specNext, Spec.set, hne]
+    | _ => simp [specNext]
   | delete t0 id0 =>
     simp only [Op.tenant, Option.some.injEq] at ht; subst ht
-    simp only [specStep, Spec.delete]; split <;> simp [Spec.set, hne]
-  | list t0 => rfl
-  | restart => rfl
+    generalize (step (run init ops).1 (.delete t0 id0)).2 = o
+    cases o with
+    | res r => cases r <;> simp [specNext, Spec.set, hne]
+    | _ => simp [specNext]
+  | list t0 => simp [specNext]
+  | restart => simp [specNext]
 
 /-- C20.K2 (contact points): reopening the database is the identity on the whole (persistent) state. -/
 theorem reload_persist_id_contact (st : St) : (step st .restart).1 = st := rfl
 end Contact
 
-/-! ## dashboards and folders (pkg/dashboards) — modelled for the correspondence; proved here: restart
-identity, the tenant frame of the folder structures, and the counterexamples for the shared details files
-and the missing type / cycle checks.  The refinement of the tree operations is NOT proved. -/
+/-! ## dashboards and folders (pkg/dashboards) — modelled for the correspondence; with patches c20-3 / c20-4 /
+c20-5 proved here: restart identity and the tenant frame (folder structures AND details files) at full
+strength; counterexample theorems for the behaviour before the patches.  The refinement of the tree
+operations is NOT proved. -/
 section Dash
 open SigModel.KV.Dash
 
@@ -503,31 +522,85 @@ theorem reload_persist_id_dash (st : St) : (step st .restart).1 = st := rfl
 (items and order) of every other tenant untouched, in ANY state. -/
 theorem tenant_frame_dash_structure (st : St) (op : Op) (t : Nat) (ht : op.tenant = some t) (t' : Nat) (hne : t' ≠ t) :
     (step st op).1.fs t' = st.fs t' :=
-  Lemmas.C20K.Dash.fs_frame st op t ht t' hne
+  Lemmas.C20K.Dash.fs_frame false st op t ht t' hne
 
-/-- C20.K3 (dashboards) is REFUTED for the details files, which are addressed by id alone: tenant 0
-toggling the favourite flag of tenant 1's dashboard changes what tenant 1 reads. -/
-theorem tenant_frame_dash_counterexample :
+/-- C20.K3 (dashboards) at full strength: after EVERY operation sequence, an operation of tenant `t` leaves
+untouched everything another tenant `t'` reads from — its folder structure and the details file of every
+object of its structure (the root folder, id 0, has no details file).  Rests on: ids come from one generator,
+so no id is in two tenants' structures, and every write to a details file is now preceded by a lookup of the
+id in the CALLER's structure. -/
+theorem tenant_frame_dash (ops : List Op) (op : Op) (t : Nat) (ht : op.tenant = some t) (t' : Nat) (hne : t' ≠ t) :
+    (step (run init ops).1 op).1.fs t' = (run init ops).1.fs t' ∧
+    ∀ id, id ≠ 0 → ((run init ops).1.fs t').items.get id ≠ none →
+      (step (run init ops).1 op).1.det.get id = (run init ops).1.det.get id :=
+  ⟨Lemmas.C20K.Dash.fs_frame false _ op t ht t' hne,
+   fun id hid hown => Lemmas.C20K.Dash.det_frame (Lemmas.C20K.Dash.inv_run ops init Lemmas.C20K.Dash.inv_init)
+     op t ht t' hne id hid hown⟩
+
+/-- OLD behaviour (before patch c20-5) REFUTED: the details files are addressed by id alone — tenant 0
+toggling the favourite flag of tenant 1's dashboard changed what tenant 1 read. -/
+theorem tenant_frame_dash_old_counterexample :
     ¬ (∀ (st : St) (op : Op) (t : Nat), op.tenant = some t → ∀ t', t' ≠ t → ∀ id,
-        (step (step st op).1 (.getDash t' id)).2 = (step st (.getDash t' id)).2) := by
+        (stepOld (stepOld st op).1 (.getDash t' id)).2 = (stepOld st (.getDash t' id)).2) := by
   intro h
-  have h1 := h (step init (.createDash 1 [97] "p" 0)).1 (.favorite 0 1) 0 rfl 1 (by decide) 1
+  have h1 := h (stepOld init (.createDash 1 [97] "p" 0)).1 (.favorite 0 1) 0 rfl 1 (by decide) 1
   revert h1; decide
 
-/-- the missing type and cycle checks of `updateDashboard`: a sequence of two accepted API calls leaves a
-parent cycle in the folder structure (on which `buildFolderPath` / `generateBreadcrumbs` never return). -/
-theorem dash_update_creates_cycle_counterexample :
-    ¬ (∀ ops t, hasCycle ((run init ops).1.fs t) = false) := by
+/-- OLD behaviour (before patch c20-3) REFUTED: `updateDashboard` checked neither the type of the id nor
+cycles — two accepted API calls left a parent cycle in the folder structure (on which `buildFolderPath` /
+`generateBreadcrumbs` never returned). -/
+theorem dash_update_creates_cycle_old_counterexample :
+    ¬ (∀ ops t, hasCycle ((runOld init ops).1.fs t) = false) := by
   intro h
   have h1 := h [.createFolder 1 [97] 0, .updateDash 1 1 [97] "p" (some 1)] 1
   revert h1; decide
 
-example : -- non-vacuous run: folder rename refreshes the stored folder path on the next read; recursive delete
+example : -- non-vacuous run: folder rename refreshes the stored folder path on the next read; recursive delete;
+    -- the dashboard API refuses a folder id, the folder API a dashboard id, another tenant reads nothing
     (run init [.createFolder 0 [97] 0, .createDash 0 [100] "p" 1, .updateFolder 0 1 (some [122]) none, .getDash 0 2,
+      .updateDash 0 1 [98] "q" (some 1), .updateFolder 0 2 (some [98]) none, .getDash 1 2, .favorite 1 2,
       .deleteFolder 0 1, .getDash 0 2, .list 0]).2 =
     [.created 1, .created 2, .res .ok,
       .dash { name := [100], payload := "p", fid := 1, fname := [122], path := [122], crumbs := [0, 1], fav := false },
+      .res .wrongType, .res .wrongType, .res .notFound, .res .notFound,
       .res .ok, .res .notFound, .rows []] := by decide
 end Dash
+
+/-! ## alert definitions (pkg/alerts/alertsqlite, CreateAlert / UpdateAlert / DeleteAlert / GetAlert /
+GetAllAlerts) — modelled for the correspondence; proved here: restart identity, name uniqueness for every
+operation sequence, and the counterexample for the missing org check.  No refinement theorem. -/
+section AlertDB
+open SigModel.KV.AlertDB
+
+/-- C20.K2 (alert definitions): reopening the database is the identity on the whole (persistent) state. -/
+theorem reload_persist_id_adb (st : St) : (step st .restart).1 = st := rfl
+
+/-- after EVERY operation sequence no two stored alerts carry the same name: although `isNewAlertName`
+answers "new" on both of its branches, every path that writes a name (CreateAlert, UpdateAlert) ends in an
+insert / save that the UNIQUE index refuses, and a refused write changes nothing. -/
+theorem alert_names_unique (ops : List Op) (id id' : Nat) (r r' : Row)
+    (h : (run init ops).1.alerts.get id = some r) (h' : (run init ops).1.alerts.get id' = some r')
+    (hn : r.name = r'.name) : id = id' :=
+  Lemmas.C20K.AlertDB.unique_run ops init Lemmas.C20K.AlertDB.unique_init id id' r r' h h' hn
+
+/-- C20.K3 (alert definitions) is REFUTED: org 1 updating, then deleting, the alert of org 0 by its id is
+accepted (GetAlert / UpdateAlert / DeleteAlert carry no org id) and changes what org 0 lists. -/
+theorem tenant_frame_adb_counterexample :
+    ¬ (∀ (st : St) (op : Op) (t : Nat), (match op with
+          | .update t' _ _ _ _ => t' = t | .delete t' _ => t' = t | _ => False) →
+        ∀ t', t' ≠ t → (step (step st op).1 (.list t')).2 = (step st (.list t')).2) := by
+  intro h
+  have h1 := h (run init [.contact 0 [99], .create 0 [97] "m" 1]).1 (.delete 1 1) 1 rfl 0 (by decide)
+  revert h1; decide
+
+example : -- non-vacuous run: duplicate name, missing contact, invalid names, unknown id, contact change, restart
+    (run init [.contact 0 [99], .contact 1 [100], .create 0 [97] "m1" 1, .create 1 [97] "m2" 1, .create 0 [98] "m3" 5,
+      .create 0 [] "m" 1, .create 0 [42] "m" 1, .get 0 9, .update 0 9 [120] "m" none, .update 0 1 [120] "m4" (some 2),
+      .restart, .list 0, .delete 0 1, .delete 0 1]).2 =
+    [.created 1, .created 2, .created 1, .res .exists_, .res .parentNotFound, .res .invalid, .res .invalid, .noAlert,
+      .res .invalid, .res .ok, .restarted,
+      .rows [(1, { name := [120], org := 0, msg := "m4", cid := 2, cname := [100] })], .res .ok, .res .notFound] := by
+  decide
+end AlertDB
 
 end SigModel.Props.C20.KV
